@@ -6,8 +6,8 @@
 (* Property-level model.  A URL is a sequence of segments, "extends" is    *)
 (* the prefix order on sequences (the harness concatenates the segments,   *)
 (* so it is also the prefix order of the concrete strings).  Every region  *)
-(* owns a family of URLs  a < ax (prefix-related), b, c  and one-shot URLs *)
-(* t, u; the asset URL g is shared by all regions, rg is region-specific.  *)
+(* owns a family of URLs  a < ax (prefix-related), b, c, tx and one-shot    *)
+(* URLs t (< tx) and at (> a); asset URL g is shared, rg region-specific.   *)
 (* Wrapper and proxy-only URLs are chosen by the proxy: they are symbols   *)
 (* ("?W..", "?P..") that the harness binds to the observed URL.            *)
 (*                                                                         *)
@@ -21,7 +21,9 @@ EXTENDS Naturals, Sequences, FiniteSets, TLC
 CONSTANTS NR,        \* regions 1..NR; 1 and 2 belong to session 1, the others to session 2
           MaxSeed,   \* seed exchanges explored in one behaviour
           MaxTemp,   \* live one-shot caps per region
-          Grants     \* which grant templates the simulators use (subset of 1..8)
+          Grants,    \* which grant templates the simulators use (subset of 1..9)
+          PO,        \* proxy-only cap names addons register (subset of {"ProxyP", "ProxyQ"})
+          Wants      \* which request lists the viewer uses (subset of 1..7)
 
 VARIABLES caps, pend, nseed,            \* state
           lastG, firstP, treg, tres     \* ghosts (functions of the history)
@@ -32,7 +34,8 @@ SessOf(r) == IF r <= 2 THEN 1 ELSE 2
 
 Asset == {"GetMesh", "ViewerAsset"}
 WName(n) == n \o "ProxyWrapper"
-Names == {"Seed", "CapA", "CapB", "UpTemp", "ProxyP"} \cup Asset \cup {WName(n) : n \in Asset}
+PONameSet == {"ProxyP", "ProxyQ"}
+Names == {"Seed", "CapA", "CapB", "UpTemp"} \cup PONameSet \cup Asset \cup {WName(n) : n \in Asset}
 
 (***************************** URLs ****************************************)
 U(r, k) == <<"r" \o ToString(r) \o k>>
@@ -43,8 +46,13 @@ UrlB(r) == U(r, "b")
 UrlC(r) == U(r, "c")
 AssetG == <<"g">>
 AssetR(r) == U(r, "g")
-TempUrls(r) == {U(r, "t"), U(r, "u")}
-ProxyUrl(r) == <<"?P" \o ToString(r)>>
+(* one-shot URLs: t stands alone but is EXTENDED BY the grantable URL tx; at EXTENDS the grantable *)
+(* URL a (an uploader URL underneath the URL of the cap that created it)                         *)
+UrlT(r) == U(r, "t")
+UrlTx(r) == U(r, "t") \o <<"x">>
+UrlAt(r) == U(r, "a") \o <<"t">>
+TempUrls(r) == {UrlT(r), UrlAt(r)}
+ProxyUrl(r, n) == <<"?P" \o ToString(r) \o n>>
 WrapUrl(r, n, k) == <<"?W" \o ToString(r) \o n \o ToString(k)>>
 Ext(u) == u \o <<"e">>                      \* a request below a granted URL
 NoUrl == <<>>
@@ -61,6 +69,7 @@ T(r, i) ==
       [] i = 7 -> ("ViewerAsset" :> AssetR(r))
       [] i = 8 -> ("CapA" :> UrlC(r))          \* with 1 / 2, used repeatedly: re-grants of an EARLIER URL
                                                \* of the same name (a c a, a c a c, a ax a ..)
+      [] i = 9 -> ("CapB" :> UrlTx(r))         \* a granted URL that extends a one-shot URL
 
 (***************************** queries *************************************)
 EntriesOf(c) == UNION {{[r |-> rn[1], n |-> rn[2], t |-> c[rn[1]][rn[2]][i].t, u |-> c[rn[1]][rn[2]][i].u] :
@@ -92,17 +101,27 @@ Init == /\ caps = [r \in Regions |-> [n \in Names |->
         /\ pend = [r \in Regions |-> NoPend]
         /\ nseed = 0
         /\ lastG = [r \in Regions |-> [n \in Names |-> IF n = "Seed" THEN SeedUrl(r) ELSE NoUrl]]
-        /\ firstP = [r \in Regions |-> NoUrl]
+        /\ firstP = [r \in Regions |-> [n \in PONameSet |-> NoUrl]]
         /\ treg = [u \in UNION {TempUrls(r) : r \in Regions} |-> 0]
         /\ tres = [u \in UNION {TempUrls(r) : r \in Regions} |-> 0]
 
-(* The viewer's seed request reaches the proxy. *)
-Wanted(wp) == {"CapA", "CapB", "GetMesh", "ViewerAsset"} \cup (IF wp THEN {"ProxyP"} ELSE {})
-Needed(r, wp) == Wanted(wp) \cap PONames(r)
-Upstream(r, wp) == Wanted(wp) \ Needed(r, wp)              \* OUTPUT: what the simulator is asked
-SeedReq(r, wp) ==
-    /\ ~pend[r].on /\ nseed < MaxSeed
-    /\ pend' = [pend EXCEPT ![r] = [on |-> TRUE, up |-> Upstream(r, wp), need |-> Needed(r, wp)]]
+(* The viewer's seed request reaches the proxy: an ordered list of names, the proxy-only ones in    *)
+(* every adjacency / relative order with the ordinary ones.                                          *)
+WL(w) == CASE w = 1 -> <<"CapA", "CapB", "GetMesh", "ViewerAsset">>
+           [] w = 2 -> <<"CapA", "ProxyP", "CapB", "GetMesh", "ViewerAsset">>
+           [] w = 3 -> <<"ProxyP", "ProxyQ", "CapA", "CapB", "GetMesh", "ViewerAsset">>
+           [] w = 4 -> <<"CapA", "CapB", "GetMesh", "ViewerAsset", "ProxyQ", "ProxyP">>
+           [] w = 5 -> <<"ProxyQ", "CapA", "CapB", "GetMesh", "ProxyP", "ViewerAsset">>
+           [] w = 6 -> <<"CapA", "CapB", "ProxyQ", "ProxyP", "GetMesh", "ViewerAsset">>
+           [] w = 7 -> <<"CapA", "ProxyQ", "CapB", "GetMesh", "ViewerAsset">>
+SeqRange(q) == {q[i] : i \in DOMAIN q}
+Wanted(w) == SeqRange(WL(w))
+Needed(r, w) == Wanted(w) \cap PONames(r)
+UpstreamList(r, w) == SelectSeq(WL(w), LAMBDA n : n \notin PONames(r))   \* OUTPUT: what the simulator is asked
+Upstream(r, w) == SeqRange(UpstreamList(r, w))
+SeedReq(r, w) ==
+    /\ w \in Wants /\ ~pend[r].on /\ nseed < MaxSeed
+    /\ pend' = [pend EXCEPT ![r] = [on |-> TRUE, up |-> Upstream(r, w), need |-> Needed(r, w)]]
     /\ nseed' = nseed + 1
     /\ UNCHANGED <<caps, lastG, firstP, treg, tres>>
 
@@ -147,13 +166,14 @@ RegisterTemp(r, u) ==
     /\ UNCHANGED <<pend, nseed, firstP, tres>>
 
 (* region.register_proxy_cap: a second registration yields the same URL *)
-OutRegisterProxy(r) == IF caps[r]["ProxyP"] # <<>> THEN Head(caps[r]["ProxyP"]).u ELSE ProxyUrl(r)
-RegisterProxy(r) ==
-    /\ IF caps[r]["ProxyP"] # <<>>
+OutRegisterProxy(r, n) == IF caps[r][n] # <<>> THEN Head(caps[r][n]).u ELSE ProxyUrl(r, n)
+RegisterProxy(r, n) ==
+    /\ n \in PO
+    /\ IF caps[r][n] # <<>>
        THEN UNCHANGED <<caps, lastG, firstP>>
-       ELSE /\ caps' = [caps EXCEPT ![r]["ProxyP"] = <<[t |-> "P", u |-> ProxyUrl(r)]>>]
-            /\ lastG' = [lastG EXCEPT ![r]["ProxyP"] = ProxyUrl(r)]
-            /\ firstP' = [firstP EXCEPT ![r] = ProxyUrl(r)]
+       ELSE /\ caps' = [caps EXCEPT ![r][n] = <<[t |-> "P", u |-> ProxyUrl(r, n)]>>]
+            /\ lastG' = [lastG EXCEPT ![r][n] = ProxyUrl(r, n)]
+            /\ firstP' = [firstP EXCEPT ![r][n] = ProxyUrl(r, n)]
     /\ UNCHANGED <<pend, nseed, treg, tres>>
 
 (* a request that resolves to a one-shot cap consumes it *)
@@ -169,10 +189,10 @@ ResolveTemp(q) ==
          /\ tres' = [tres EXCEPT ![e.u] = @ + 1]
     /\ UNCHANGED <<pend, nseed, lastG, firstP, treg>>
 
-Next == \/ \E r \in Regions : \/ \E wp \in BOOLEAN : SeedReq(r, wp)
-                              \/ \E i \in 1..8 : SeedResp(r, i)
+Next == \/ \E r \in Regions : \/ \E w \in 1..7 : SeedReq(r, w)
+                              \/ \E i \in 1..9 : SeedResp(r, i)
                               \/ \E u \in TempUrls(r) : RegisterTemp(r, u)
-                              \/ RegisterProxy(r)
+                              \/ \E n \in PONameSet : RegisterProxy(r, n)
         \/ \E q \in TempReqs : ResolveTemp(q)
 Spec == Init /\ [][Next]_vars
 
@@ -188,22 +208,25 @@ Attributed ==
 (* ... and nothing else resolves *)
 OnlyGranted ==
     LET E == EntriesOf(caps) IN
-    \A r \in Regions : \A u \in {UrlA(r), UrlAx(r), UrlB(r), UrlC(r), AssetR(r), AssetG} \cup TempUrls(r) :
+    \A r \in Regions : \A u \in {UrlA(r), UrlAx(r), UrlB(r), UrlC(r), UrlTx(r), AssetR(r), AssetG} \cup TempUrls(r) :
         (\A e \in E : ~IsPre(e.u, u)) => AccIn(E, u) = {None4} /\ AccIn(E, Ext(u)) = {None4}
 (* lookup by name yields the most recent grant (one-shot caps: see TempOnce) *)
 Newest == \A r \in Regions : \A n \in Names \ {"UpTemp"} : ByName(r, n) = lastG[r][n]
-(* a one-shot cap resolves exactly once per registration *)
+(* a one-shot cap resolves exactly once per registration: while it is live a request for / below its *)
+(* URL is attributed to it (also when the URL extends a granted cap's URL), afterwards never again   *)
 TempOnce ==
     LET E == EntriesOf(caps) IN
     \A r \in Regions : \A u \in TempUrls(r) :
         /\ tres[u] <= treg[u] /\ Live(r, u) + tres[u] = treg[u]
-        /\ \A q \in {u, Ext(u)} : AccIn(E, q) = IF Live(r, u) > 0 THEN {<<"UpTemp", "T", r, SessOf(r)>>} ELSE {None4}
-(* proxy-only caps never go upstream, everything else the viewer asked for does *)
+        /\ \A q \in {u, Ext(u)} : IF Live(r, u) > 0 THEN AccIn(E, q) = {<<"UpTemp", "T", r, SessOf(r)>>}
+                                   ELSE \A a \in AccIn(E, q) : a[2] # "T"
+(* proxy-only caps never go upstream, everything else the viewer asked for does (in its order) *)
 SeedReqOK ==
-    \A r \in Regions : \A wp \in BOOLEAN :
-        /\ Upstream(r, wp) \cap PONames(r) = {}
-        /\ Wanted(wp) \subseteq Upstream(r, wp) \cup PONames(r)
-        /\ Upstream(r, wp) \subseteq Wanted(wp)
+    \A r \in Regions : \A w \in Wants :
+        /\ Upstream(r, w) \cap PONames(r) = {}
+        /\ Wanted(w) \subseteq Upstream(r, w) \cup PONames(r)
+        /\ Upstream(r, w) \subseteq Wanted(w)
+        /\ Needed(r, w) = {n \in PONameSet : n \in Wanted(w) /\ firstP[r][n] # NoUrl}
 (* the viewer is shown every granted cap, wrapper URLs for the asset caps (which resolve *)
 (* to the wrapper cap of THIS region) and the proxy-only caps it asked for               *)
 SeedRespOK ==
@@ -216,12 +239,12 @@ SeedRespOK ==
               /\ \A n \in DOMAIN g \cap Asset :
                     /\ v[n] # g[n]
                     /\ \A q \in {v[n], Ext(v[n])} : AccIn(EA, q) = {<<WName(n), "W", r, SessOf(r)>>}
-              /\ \A n \in pend[r].need : v[n] = firstP[r] /\ v[n] # NoUrl
+              /\ \A n \in pend[r].need : v[n] = firstP[r][n] /\ v[n] # NoUrl
 (* registering a proxy-only cap again yields the URL of the first registration *)
-ProxyStable == \A r \in Regions : firstP[r] # NoUrl => OutRegisterProxy(r) = firstP[r]
+ProxyStable == \A r \in Regions : \A n \in PONameSet : firstP[r][n] # NoUrl => OutRegisterProxy(r, n) = firstP[r][n]
 
 (***************************** observation (binding) ***********************)
-StaticUrls == UNION {{SeedUrl(r), UrlA(r), UrlAx(r), UrlB(r), UrlC(r), AssetR(r)} \cup TempUrls(r) : r \in Regions}
+StaticUrls == UNION {{SeedUrl(r), UrlA(r), UrlAx(r), UrlB(r), UrlC(r), UrlTx(r), AssetR(r)} \cup TempUrls(r) : r \in Regions}
                  \cup {AssetG}
 ReqsIn(E) == LET base == StaticUrls \cup {e.u : e \in E}
              IN base \cup {Ext(u) : u \in base} \cup {<<"zz">>}
@@ -232,6 +255,11 @@ Obs == [res    |-> ObsRes,
         byname |-> {<<r, n, ByName(r, n), IF caps[r][n] = <<>> THEN "-" ELSE Head(caps[r][n]).t>> : <<r, n>> \in Regions \X Names},
         \* ProxyStable as a probe in EVERY state (also right after a seed round trip): registering the
         \* proxy-only cap again must hand out the URL of the first registration
-        proxy  |-> {<<r, OutRegisterProxy(r)>> : r \in {r \in Regions : caps[r]["ProxyP"] # <<>>}},
-        temps  |-> {<<r, u, Live(r, u)>> : <<r, u>> \in {<<r, u>> \in Regions \X UNION {TempUrls(r) : r \in Regions} : u \in TempUrls(r)}}]
+        proxy  |-> {<<rn[1], rn[2], OutRegisterProxy(rn[1], rn[2])>> :
+                        rn \in {rn \in Regions \X PONameSet : caps[rn[1]][rn[2]] # <<>>}},
+        \* one-shot caps are drained: k live registrations answer exactly k times, then the request is
+        \* attributed to whatever is left (`after`: e.g. the granted cap whose URL the one-shot URL extends)
+        temps  |-> LET E == EntriesOf(caps) IN
+                   {<<ru[1], ru[2], Live(ru[1], ru[2]), AccIn({e \in E : ~(e.t = "T" /\ e.u = ru[2])}, ru[2])>> :
+                        ru \in {ru \in Regions \X UNION {TempUrls(r) : r \in Regions} : ru[2] \in TempUrls(ru[1])}}]
 =============================================================================
